@@ -808,6 +808,30 @@ def run_case(case, rec=None, known=None):
         di = 1
         generated = True
 
+    # ------------------------------------------------------------ the same chart-data object reused after growing
+    if generated and kind != "cat" and case.get("grow"):
+        import copy as _copy
+        cur = _copy.deepcopy(datas[0])
+        for gi, (si, k) in enumerate(case["grow"]):
+            if not cur["series"]:
+                break
+            si = si % len(cur["series"])
+            with core.sut("C08:grow-chart-data:%s" % _kindname(kind)):
+                ser = cd[si]
+                for j in range(k):
+                    p = [1000.0 * (gi + 1) + j, -(7.5 + j)] + ([j + 2] if kind == "bubble" else [])
+                    ser.add_data_point(*p)
+                    cur["series"][si][1].append(p)
+            # generated tail points (`extra`) come after the explicit ones in the description: keep order by
+            # moving them into the explicit list first
+            with core.sut("C08:chart-from-data:%s" % _kindname(kind)):
+                chart.replace_data(cd)
+            xml, xlsx = observe_memory(chart, "replace")
+            info = check_state(xml, xlsx, kind, cur, {"step": "replace", "generated": True}, rec, known)
+            if rec is not None:
+                rec.cls("reuse:same-chart-data-object-grown", "reuse:grow-by-%d" % k)
+        datas = [cur] + list(datas[1:])
+
     # ------------------------------------------------------------ start-state modifications on the saved file
     if mods.get("reopen") or mods.get("date1904") or mods.get("noext"):
         buf = io.BytesIO()
@@ -957,6 +981,8 @@ def jobs(tier):
     for i in range(48 if tier == "thorough" else 16):
         big = i % 4 == 0
         js.append({"kind": "hyp", "shard": i, "n": (n * 2) // 5 if big else n, "big": big})
+    for i in range(8):
+        js.append({"kind": "reuse", "shard": i, "n": 150 if tier == "thorough" else 25})
     return js
 
 
@@ -979,6 +1005,27 @@ def run_job(job, seed, tier, rec, known):
             allc = sorted(allc, key=lambda c: -sum(d.get("bulk", 0) for d in c["datas"]))
             mine = allc[job["shard"]::(NGRID if k == "grid" else NCORPUS)][::-1]
             f = run_plain(lambda c: run_case(c, rec, known), mine, rec=rec, known=known)
+            for x in f:
+                x["case"] = ["case", x["case"]]
+            return f
+        if k == "reuse":
+            from hypothesis import strategies as st
+            kind = ["xy", "bubble"][job["shard"] % 2]
+            types = {"xy": ["XY_SCATTER", "XY_SCATTER_LINES", "XY_SCATTER_SMOOTH_NO_MARKERS"],
+                     "bubble": ["BUBBLE", "BUBBLE_THREE_D_EFFECT"]}[kind]
+
+            @st.composite
+            def reuse_cases(draw):
+                d = draw(S.xy_data(bubble=(kind == "bubble"), min_series=2, calm=True))
+                # explicit points only (extra = 0) so appended points are the tail of the series
+                for srs in d["series"]:
+                    srs[2] = 0
+                grow = draw(st.lists(st.tuples(st.integers(0, 5), st.sampled_from([1, 2, 2, 3, 5])), min_size=1, max_size=3))
+                return {"kind": kind, "type": draw(st.sampled_from(types)), "start": "new", "mods": {},
+                        "datas": [d], "grow": [list(g) for g in grow]}
+
+            f = hyp_search(lambda c: run_case(c, rec, known), reuse_cases(), seed=seed, max_examples=job["n"], rec=rec,
+                           known=known, shrink_budget=60)
             for x in f:
                 x["case"] = ["case", x["case"]]
             return f
